@@ -29,6 +29,48 @@ func verifRefEq(a, b metav1.OwnerReference, what string) {
 	}
 }
 
+// verifRefSame: a and b are the same owner reference (a symbolic boolean computed
+// without forking the path).
+func verifRefSame(a, b metav1.OwnerReference) bool {
+	if (a.Controller == nil) != (b.Controller == nil) || (a.BlockOwnerDeletion == nil) != (b.BlockOwnerDeletion == nil) {
+		return false
+	}
+	same := rt.And(rt.And(a.UID == b.UID, a.Name == b.Name), rt.And(a.Kind == b.Kind, a.APIVersion == b.APIVersion))
+	if a.Controller != nil {
+		same = rt.And(same, *a.Controller == *b.Controller)
+	}
+	if a.BlockOwnerDeletion != nil {
+		same = rt.And(same, *a.BlockOwnerDeletion == *b.BlockOwnerDeletion)
+	}
+	return same
+}
+
+// verifOthersKept: the property fixes WHICH references an object has, not their
+// order: every reference of orig that is not ours is still in out, and out holds
+// nothing but those (and, when oursOK, our reference).
+func verifOthersKept(out, orig []metav1.OwnerReference, our string, ours *metav1.OwnerReference, what string) {
+	for i := range orig {
+		if string(orig[i].UID) == our {
+			continue
+		}
+		found := false
+		for j := range out {
+			found = rt.Or(found, verifRefSame(out[j], orig[i]))
+		}
+		rt.Assert(found, what+"/other-owner-lost")
+	}
+	for j := range out {
+		known := false
+		if ours != nil {
+			known = verifRefSame(out[j], *ours)
+		}
+		for i := range orig {
+			known = rt.Or(known, rt.And(string(orig[i].UID) != our, verifRefSame(out[j], orig[i])))
+		}
+		rt.Assert(known, what+"/entry-invented")
+	}
+}
+
 var verifIdx = []string{"0", "1", "2", "3"}
 
 func VerifC04_OwnerRefs() {
@@ -57,7 +99,7 @@ func VerifC04_OwnerRefs() {
 
 	if rt.Bool("remove") {
 		out := removeOwnerReference(in, types.UID(our))
-		// expectation: the others, in order
+		// expectation: the others (in any order)
 		var want []metav1.OwnerReference
 		for _, r := range orig {
 			if string(r.UID) != our {
@@ -71,12 +113,10 @@ func VerifC04_OwnerRefs() {
 		}
 		rt.Observe("remove-len", len(out))
 		rt.Assert(len(out) == len(want), "remove/length")
-		for i := range want {
-			if i < len(out) {
-				verifRefEq(out[i], want[i], "remove/others-kept-in-order")
-				rt.Assert(string(out[i].UID) != our, "remove/ours-still-there")
-			}
+		for i := range out {
+			rt.Assert(string(out[i].UID) != our, "remove/ours-still-there")
 		}
+		verifOthersKept(out, orig, our, nil, "remove")
 	} else {
 		out := addOwnerReference(in, add)
 		ours := 0
@@ -99,16 +139,8 @@ func VerifC04_OwnerRefs() {
 				oursOut++
 				verifRefEq(out[i], add, "add/our-entry")
 			}
-			if i < n {
-				if string(orig[i].UID) != our {
-					verifRefEq(out[i], orig[i], "add/others-kept-in-order")
-				} else {
-					rt.Assert(string(out[i].UID) == our, "add/ours-not-updated-in-place")
-				}
-			} else {
-				rt.Assert(string(out[i].UID) == our, "add/appended-entry-not-ours")
-			}
 		}
+		verifOthersKept(out, orig, our, &add, "add")
 		if ours <= 1 {
 			rt.Assert(oursOut == 1, "add/ours-not-exactly-once")
 		} else {
